@@ -113,6 +113,7 @@ def object_values():
         o.Both(1, 2, 3),
         o.NewArgs(1, 2),
         o.NewArgsEx(1, k=5),
+        o.NewArgsExOD(2, k=6),
         o.Reduced(),
         o.Reduced(1, "a"),
         o.ReducedState(1),
